@@ -36,7 +36,10 @@ def entry? : Sexp → Option (P × Kind)
   | _ => none
 
 def step? : Sexp → Option Step
-  | .list [.atom "reopen", a, b, c] => do some (.reopen (← bool? a) (← bool? b) (← bool? c))
+  | .list [.atom "reopen", a, b, c, t, f] => do
+    let t ← (match t with | .atom "-" => some none | x => (bool? x).map some)
+    let f ← (match f with | .atom "-" => some none | x => (bytes? x).map some)
+    some (.reopen (← bool? a) (← bool? b) (← bool? c) t f)
   | .list [.atom "close", a] => do some (.close (← bool? a))
   | _ => none
 
@@ -61,8 +64,8 @@ def handle : Sexp → Sexp
         init.mapM entry?, steps.mapM step? with
     | some name, some base, some temp, some clean, some filed, some ext, some fext, some head, some temph, some init, some steps =>
       let c : Cfg := ⟨name, base, fext, temp, filed, ext, head, temph⟩
-      let s0 : St := ⟨init, 0, none⟩
-      let (s1, r) := reopen c s0 false false clean
+      let s0 : St := fresh c init
+      let (s1, r) := reopen c s0 false false clean none none
       match r with
       | .ok _ => .list (outSnap init :: outStage s1 r :: runSteps c s1 steps)
       | .error _ => .list [outSnap init, outStage s1 r]
